@@ -132,6 +132,28 @@ Fixpoint erase (t : cexp) : cexp :=
   | CParen _ a => CParen false (erase a)
   end.
 
+(* ------------------------------------------------------------------ boolean equality *)
+Fixpoint bytes_eq (a b : list N) : bool :=
+  match a, b with
+  | [], [] => true
+  | x :: r, y :: r' => (x =? y) && bytes_eq r r'
+  | _, _ => false
+  end.
+Fixpoint cexp_eqb (a b : cexp) : bool :=
+  match a, b with
+  | CInt n, CInt m => n =? m
+  | CFlt t x, CFlt t' x' => bytes_eq t t' && (x =? x')
+  | CId s, CId s' => bytes_eq s s'
+  | CNeg x, CNeg y => cexp_eqb x y
+  | CNot x, CNot y => cexp_eqb x y
+  | CBin o x y, CBin o' x' y' => binop_eqb o o' && cexp_eqb x x' && cexp_eqb y y'
+  | CCond n c x y, CCond n' c' x' y' => Bool.eqb n n' && cexp_eqb c c' && cexp_eqb x x' && cexp_eqb y y'
+  | CCall f x, CCall f' x' => bytes_eq f f' && cexp_eqb x x'
+  | CCall0 f, CCall0 f' => bytes_eq f f'
+  | CParen n x, CParen n' x' => Bool.eqb n n' && cexp_eqb x x'
+  | _, _ => false
+  end.
+
 (* ------------------------------------------------------------------ string surgery on trees *)
 (* The printers build some texts by juxtaposition: "c*" ++ text(k), "-" ++ text(k), and
    text.substr(1) after testing text[0] == '-'.  On trees: *)
